@@ -210,8 +210,8 @@ def run_shard(spec):
         # a mutable array that was written to after an earlier evaluation (expected output from the reference interpreter)
         from ..gen import idioms
         from ..model import ast as A
-        for tag, prog in idioms.fresh_literal_programs():
-            for args in idioms.FRESH_ARGS:
+        for tag, prog, argsets in [(t, p, idioms.FRESH_ARGS) for t, p in idioms.fresh_literal_programs()] + [(t, p, idioms.BITVECTOR_ARGS) for t, p in idioms.bitvector_programs()]:
+            for args in argsets:
                 for word in (2, 3):
                     ref, why = diff.model_run(prog, args, word)
                     if ref is None:
@@ -263,6 +263,20 @@ def run_shard(spec):
             runner.count(res, 'programs_exact')
             runner.count(res, 'bytes_compared', len(want))
             res['nontrivial'].extend(runner.case_id('raw', c, word) for c in chunk)
+        # a character literal holds ONE byte: a raw character beyond ASCII (two or more UTF-8 bytes) must be refused, in files and strings alike
+        CompilerError, _ = env.compiler_error_types()
+        for c in (0x80, 0xa0, 0xe9, 0xff, 0x100, 0x20ac, 0x1F30E):
+            for via in ('file', 'string'):
+                src = f"empty @is_you() {{ write('{chr(c)}'); }}\n"
+                res['evaluations'] += 1
+                try:
+                    (env.compile_file_bytes(src.encode('utf-8'), word=word) if via == 'file' else env.compile_src(src, word=word))
+                    runner.fail(res, 'M-DATA', f"character literal with the raw character U+{c:04X} ({len(chr(c).encode())} bytes) is accepted ({via})", {'source': src, 'via': via})
+                except CompilerError:
+                    runner.count(res, 'multibyte_char_literals_refused')
+                    res['nontrivial'].append(runner.case_id('rawchar', c, via, word))
+                except Exception as e:  # noqa
+                    runner.fail(res, 'M-EXC', f'raw character U+{c:04X} in a char literal: {type(e).__name__}: {e}', {'source': src, 'via': via})
         res['exhaustive'] = True
     elif k == 'collisions':
         # several constant tables in ONE program whose emitted rows or values coincide although element type,
